@@ -19,35 +19,16 @@ Theorem C38_config_long_only : forall cs, has (bits_of cs) bitLO = cv_lo (conv_o
 Proof. exact has_lo. Qed.
 Print Assumptions C38_config_long_only.
 
-(* FULL STATEMENT (false of the faithful model, see C38_parse_render_roundtrip_refuted):
-     forall cs specs items, specs_distinct specs = true -> longs_no_eq specs = true ->
-       valid (conv_of cs) specs items = true ->
-       parse (bits_of cs) specs (render items) = meaning (conv_of cs) items.
-   Proved below with the additional hypothesis that no item is of the two
-   recorded defect classes ([item_ok]: an unknown option named by the "no name"
-   value, rune 0 or the empty string, while some spec has no such name). *)
-Theorem C38_parse_render_roundtrip_partial : forall cs specs items,
+(* For all specs with distinct names (and no '=' in long names) and all item
+   sequences valid for the configuration: parsing the rendered argument list
+   returns exactly the items' options with their arguments, the non-option list,
+   the option whose required argument is missing, and whether the options ended. *)
+Theorem C38_parse_render_roundtrip : forall cs specs items,
   specs_distinct specs = true -> longs_no_eq specs = true ->
   valid (conv_of cs) specs items = true ->
-  forallb (item_ok specs) items = true ->
   parse (bits_of cs) specs (render items) = meaning (conv_of cs) items.
-Proof. exact parse_render_roundtrip_partial. Qed.
-Print Assumptions C38_parse_render_roundtrip_partial.
-
-(* the extra hypothesis is vacuous when every spec has a short and a long name *)
-Theorem C38_item_ok_when_fully_named : forall specs items,
-  forallb named_short specs = true -> forallb named_long specs = true ->
-  forallb (item_ok specs) items = true.
-Proof. exact full_names_ok. Qed.
-Print Assumptions C38_item_ok_when_fully_named.
-
-Theorem C38_parse_render_roundtrip_refuted :
-  exists cs specs items,
-    specs_distinct specs = true /\ longs_no_eq specs = true /\
-    valid (conv_of cs) specs items = true /\
-    parse (bits_of cs) specs (render items) <> meaning (conv_of cs) items.
-Proof. exact parse_render_roundtrip_refuted. Qed.
-Print Assumptions C38_parse_render_roundtrip_refuted.
+Proof. exact parse_render_roundtrip. Qed.
+Print Assumptions C38_parse_render_roundtrip.
 
 (* The item grammar is unambiguous: reading the rendering of a valid item
    sequence gives back the items (so "the items of an argument list" is well
@@ -60,34 +41,24 @@ Print Assumptions C38_tokenize_render.
 
 (* For EVERY argument list (valid or not): the model of getopt.parse computes
    the reference reading, under every configuration, provided no long name
-   contains '=' and the reading has no item of the recorded defect classes.
-   FULL STATEMENT (false): the same without the [item_ok] hypothesis; see
-   C38_parse_is_reference_refuted. *)
-Theorem C38_parse_is_reference_partial : forall cs specs,
+   contains '='. *)
+Theorem C38_parse_is_reference : forall cs specs,
   longs_no_eq specs = true -> forall args,
-  forallb (item_ok specs) (tokenize (conv_of cs) specs false args) = true ->
   parse (bits_of cs) specs args = ref_parse (conv_of cs) specs args.
 Proof. exact parse_is_ref. Qed.
-Print Assumptions C38_parse_is_reference_partial.
-
-Theorem C38_parse_is_reference_refuted :
-  exists cs specs args, longs_no_eq specs = true /\
-    st_opts (parse (bits_of cs) specs args) <> st_opts (ref_parse (conv_of cs) specs args).
-Proof. exact parse_is_reference_refuted. Qed.
-Print Assumptions C38_parse_is_reference_refuted.
+Print Assumptions C38_parse_is_reference.
 
 (* unknown options and a missing argument are reported: Parse returns the
    items' options and non-options, "missing argument" iff the last item lacks
    its required argument, and one "unknown option" per unknown option *)
-Theorem C38_unknown_and_missing_reported_partial : forall cs specs,
+Theorem C38_unknown_and_missing_reported : forall cs specs,
   longs_no_eq specs = true -> forall args,
-  forallb (item_ok specs) (tokenize (conv_of cs) specs false args) = true ->
   Parse (bits_of cs) specs args =
   (flat_map item_opts (tokenize (conv_of cs) specs false args),
    flat_map item_non (tokenize (conv_of cs) specs false args),
    ref_errs (tokenize (conv_of cs) specs false args)).
 Proof. exact Parse_is_ref. Qed.
-Print Assumptions C38_unknown_and_missing_reported_partial.
+Print Assumptions C38_unknown_and_missing_reported.
 
 (* and, without any hypothesis: an error is reported exactly when an option is
    waiting for its argument at the end or an unknown option was returned *)
@@ -171,30 +142,27 @@ Theorem C38_complete_defined : forall cfg specs args, Complete cfg specs args = 
 Proof. exact complete_none. Qed.
 Print Assumptions C38_complete_defined.
 
-(* FULL STATEMENT (false): forall cfg specs args o, In o (st_opts (parse cfg specs args)) ->
-     o_long o = true -> o_unknown o = false -> s_long (o_spec o) <> [].
-   Refuted by "--=x" with a short-only spec; true when every spec has a long name. *)
-Theorem C38_long_matches_only_long_specs_refuted :
-  exists cfg specs args o,
-    In o (st_opts (parse cfg specs args)) /\ o_long o = true /\ o_unknown o = false
-    /\ s_long (o_spec o) = [].
-Proof. exact long_matches_only_long_specs_refuted. Qed.
-Print Assumptions C38_long_matches_only_long_specs_refuted.
+(* A known option that is returned (or still waits for its argument) is one of
+   the specs; a long one only of a spec that has a long name ("--=x" is an
+   unknown option), a short one only of a spec that has a short name ("-\000"
+   is an unknown option). *)
+Theorem C38_known_options_from_specs : forall cfg specs args o,
+  In o (st_opts (parse cfg specs args)) \/ st_pend (parse cfg specs args) = Some o ->
+  o_unknown o = false -> In (o_spec o) specs.
+Proof. exact known_options_from_specs. Qed.
+Print Assumptions C38_known_options_from_specs.
 
-Theorem C38_long_matches_only_long_specs_partial : forall cfg specs args o,
-  forallb named_long specs = true ->
-  In o (st_opts (parse cfg specs args)) -> o_unknown o = false ->
-  s_long (o_spec o) <> [].
-Proof. exact long_matches_only_long_specs_partial. Qed.
-Print Assumptions C38_long_matches_only_long_specs_partial.
+Theorem C38_long_matches_only_long_specs : forall cfg specs args o,
+  In o (st_opts (parse cfg specs args)) \/ st_pend (parse cfg specs args) = Some o ->
+  o_unknown o = false -> o_long o = true -> s_long (o_spec o) <> [].
+Proof. exact long_matches_only_long_specs. Qed.
+Print Assumptions C38_long_matches_only_long_specs.
 
-(* the same defect for short names: "-\000" selects a long-only spec *)
-Theorem C38_short_matches_only_short_specs_refuted :
-  exists cfg specs args o,
-    In o (st_opts (parse cfg specs args)) /\ o_long o = false /\ o_unknown o = false
-    /\ s_short (o_spec o) = 0%N.
-Proof. exact short_matches_only_short_specs_refuted. Qed.
-Print Assumptions C38_short_matches_only_short_specs_refuted.
+Theorem C38_short_matches_only_short_specs : forall cfg specs args o,
+  In o (st_opts (parse cfg specs args)) \/ st_pend (parse cfg specs args) = Some o ->
+  o_unknown o = false -> o_long o = false -> s_short (o_spec o) <> 0%N.
+Proof. exact short_matches_only_short_specs. Qed.
+Print Assumptions C38_short_matches_only_short_specs.
 
 (* Every argument list is the rendering of its reading: the reference reader
    loses nothing, so "the items of an argument list" always exist. *)
@@ -233,8 +201,16 @@ Definition ex_items : list item :=
    IRest [45;45]]%N.
 Example C38_ex_valid :
   specs_distinct ex_specs = true /\ longs_no_eq ex_specs = true
-  /\ valid (conv_of CGNU) ex_specs ex_items = true /\ forallb (item_ok ex_specs) ex_items = true
+  /\ valid (conv_of CGNU) ex_specs ex_items = true
   /\ length (render ex_items) = 12%nat
   /\ length (st_opts (parse (bits_of CGNU) ex_specs (render ex_items))) = 9%nat
   /\ st_non (parse (bits_of CGNU) ex_specs (render ex_items)) = [[120]; [45;97]; [45;45]]%N.
 Proof. vm_compute. repeat split. Qed.
+
+(* the formerly defective inputs: "--=x" and "-\000" are valid items (unknown
+   options) and parse as such, also next to short-only / long-only specs *)
+Example C38_ex_no_name_items :
+  valid (conv_of CGNU) ex_specs [ILongUnk true [] (Some [120]); IShorts [] (EUnk 0 [])]%N = true
+  /\ st_opts (parse (bits_of CGNU) ex_specs [[45;45;61;120]; [45;0]]%N)
+     = [unk_long [] [120]; unk_short 0 []]%N.
+Proof. vm_compute. split; reflexivity. Qed.
